@@ -175,6 +175,10 @@ def strat_pipeline(draw, tier, mode, heavy_faults=False):
     case = {"mode": mode, "machine": m, "vertices": vertices, "nets": nets,
             "constraints": constraints, "keys": keys,
             "vkind": draw(st.sampled_from(pr.VERTEX_KINDS)),
+            # nets and constraints as instances of the program's own
+            # subclasses; debug logging switched on
+            "subcls": draw(st.integers(0, 4)) == 0,
+            "debug_log": draw(st.integers(0, 5)) == 0,
             "seed": draw(st.integers(0, 10 ** 6)), "placer": placer,
             "effort": draw(st.sampled_from([0.0, 0.1, 0.5])),
             "radius": draw(st.sampled_from([None, 0, 1, 2, 5, 20])),
@@ -417,7 +421,8 @@ def check_pipeline(case):
            "mesh" if case["machine"]["mesh"] else "torus"]
     try:
         with sut("place-and-route pipeline", documented):
-            out = run_pipeline(case)
+            with gp.debug_logging(case.get("debug_log")):
+                out = run_pipeline(case)
     except documented as e:
         return {"documented": True, "classes": cls + [type(e).__name__]}
     m = case["machine"]
